@@ -28,6 +28,14 @@ CLAIMED = {
          "Trusted: Coq kernel/VM, engine model, injectivity of sha256 over the Go-syntax text, harness. One theorem (C06_feq_laws_binary64) lists the stdlib axiom FloatAxioms.eqb_spec; the others only primitive float/int63 declarations.", None),
  "C08": ("Coq theorems for documents of any nesting depth (ragged, empty inner arrays): the copied query agrees with the original on every clause exec consults (pinned CopyQuery refuted), the result of a simple query over an array of arrays has the same nesting and each inner result equals the query run directly on that inner array, and for plain queries mix=> returns the concatenation of the inner results. Tie: generated nested documents (depth 2-3) x filter/projection/aggregate queries, a quarter through mix=>, exact nested results through the real engine and the model.",
          "Trusted: Coq kernel/VM, engine model, harness. Print Assumptions: only primitive float/int63 declarations.", None),
+ "C16": ("Coq theorems for ARBITRARY byte strings: QuoteString round-trips through the consumer's (sqlparser, MySQL dialect) string scanner - one token, exactly the argument, scanner stops at its end (pinned quoting refuted with the injection witness); the sanitizer's lexer and the consumer's lexer agree on where $n is a placeholder (simulation, list equality of offsets: literals, quoted identifiers and comments are left alone); number / bool / NULL arguments are single literal tokens that cannot merge into comment syntax; $0, missing, unused, unsupported arguments are errors, never panics. C16_shape is partial (per literal). Tie: templates x arguments over a hostile alphabet through the real SanitizeSQL, the real tokenizer, genql.Parse (AST shape), echo and WHERE-filter through Exec; the scanner model itself is validated against sqlparser on every run.",
+         "Trusted: Coq kernel/VM, hand transcription of sqlparser's scanner and of sanitizer.go, sqlparser grammar + genql evaluator as oracles, harness. All 20 theorems closed under the global context.", None),
+ "C07": ("Coq theorems at every fuel: a query reading a CTE (directly or through a path) equals the outer query over the materialised inner result; chains of any length in any declaration order; multiple reads see one value; derived tables = staged; a row-scoped subquery is the subquery run standalone on the scoped row; IN-subquery both polarities; EXISTS = element-wise existential incl. outer columns; self/mutually recursive CTEs are errors (never divergence); fuel monotonicity. Tie: two- and three-stage pipelines through the real engine and the model, and the real code's composed result compared with its own staged result.",
+         "Trusted: Coq kernel/VM, engine model, harness. Print Assumptions: only primitive float/int63 declarations. One _partial (EXISTS with a projecting select list: implication only).", None),
+ "C20": ("Coq theorems for all tables, select lists and query sequences: running a query over the variable store equals running its register history (rows in source order x items left to right, arguments before the call, WHERE first), GETVAR sees the last SETVAR or NULL, SETVAR adds no column, the final store holds the last write per key, sequences of queries sharing a map compose. Tie: generated histories over 1-3 keys x 1-5 select positions x 0-6 rows, counters, sequences of 1-4 queries sharing one map, rows and the caller's map after each query (also after failing queries) through the real engine and the model.",
+         "Trusted: Coq kernel/VM, Model/Vars.v over the engine model, harness; RWMutex not modelled. Print Assumptions: only primitive float/int63 declarations.", None),
+ "C04": ("Coq theorems for all table pairs, ON clauses and join types: the nested-loop and the hash path both return a permutation of the textbook join (pairs satisfying ON, plus partner-less outer rows once with NULL), so every strategy agrees with every other; RIGHT = mirrored LEFT; orientation / conjunct order of ON does not matter; the length-prefixed key text is injective (pinned '%v-' refuted); Go map iteration order does not matter; and for EVERY goroutine schedule of the PARALLEL drivers (non-atomic append under a mutex, error path included) the result is a permutation of the sequential result, with mutual exclusion, no deadlock, termination. Tie: table pairs x ON x 3 types x 6 strategies (14 renderings) through the real engine, compared as multisets with the code-shaped model AND the textbook specification.",
+         "Trusted: Coq kernel/VM, engine + join model, Go mutex/WaitGroup semantics (oracle), harness. PARALLEL theorems closed under the global context; the float-order premises are discharged from the stdlib's FloatAxioms (eqb_spec, ltb_spec).", None),
 }
 
 NOT_YET = "check not built yet in this round (work in progress; planned as Coq proof + correspondence per DESIGN.md)"
